@@ -29,3 +29,20 @@ Definition burst32_msb (l l' : list N) : Prop := within32 (diff_bits_msb l l').
 (* decidable form of within32 for a given window start *)
 Definition within32b (e : list bool) (p : nat) : bool :=
   forallb (fun i => implb (nth i e false) ((p <=? i)%nat && (i <? p + 32)%nat)) (seq 0 (length e)).
+
+(* ---------- byte-level error patterns, MSB-first windows ---------- *)
+Definition xor_bytes (a b : list N) : list N := map (fun p => N.lxor (fst p) (snd p)) (combine a b).
+(* every set bit (byte j, bit t counted from the most significant) lies at MSB-first position p .. p+len-1 *)
+Definition in_window_msb (E : list N) (p len : nat) : Prop :=
+  forall j t, (t < 8)%nat -> N.testbit (nth j E 0) (N.of_nat (7 - t)) = true -> (p <= 8 * j + t < p + len)%nat.
+(* l' differs from l only inside len contiguous bits, bits numbered MSB first within bytes *)
+Definition burst_msb (len : nat) (l l' : list N) : Prop := exists p, in_window_msb (xor_bytes l l') p len.
+
+
+(* the two 5-byte patterns that are multiples of the CRC-32C generator and fit 32 contiguous MSB-first bits *)
+Definition gen_pat1 : list N := [98; 149; 227; 253; 128].   (* 62 95 e3 fd 80, window starts at bit offset 1 *)
+Definition gen_pat2 : list N := [1; 3; 131; 107; 242].      (* 01 03 83 6b f2, window starts at bit offset 7 *)
+(* one of the two patterns at some byte offset, zero elsewhere *)
+Definition is_gen_multiple (E : list N) : Prop :=
+  exists j r pat, (pat = gen_pat1 \/ pat = gen_pat2) /\ E = repeat 0 j ++ pat ++ repeat 0 r.
+
